@@ -125,7 +125,7 @@ def snapshot(doc):
 def record_import(lines, eol='\n', final_eol=True):
     """Returns (events, doc or None).  events: the line events with `obs`, followed by an 'end' event."""
     import kernpy as kp
-    sur = [i for i, e in enumerate(lines) if e['ev'] == 'surplus']
+    sur = [i for i, e in enumerate(lines) if e['ev'] in ('surplus', 'unsupported')]
     events = []
     if sur:
         k = sur[0]
@@ -165,6 +165,10 @@ def record_import(lines, eol='\n', final_eol=True):
     events.append({'ev': 'end', 'snap': snapshot(doc),
                    'obs': {'nstages': len(doc.tree.stages), 'errs': [[x.line, cps(x.encoding)] for x in errors], 'mst': mst,
                            'shape': [len(s) for s in doc.tree.stages],
+                           'cancel': [[si + 1, pi + 1, int(getattr(n.token, 'cancelled_at_stage', None) or 0)]
+                                      for si, st in enumerate(doc.tree.stages) for pi, n in enumerate(st)
+                                      if n.token is not None and n.token.category.name == 'SPINE_OPERATION'],
+                           'hstage': int(doc.header_stage or 0),
                            'pages': [[cps(str(k)), v.bounding_box.from_x, v.bounding_box.from_y, v.bounding_box.to_x, v.bounding_box.to_y,
                                       v.from_measure, v.to_measure] for k, v in doc.page_bounding_boxes.items()]}})
     return events, doc, text
@@ -329,6 +333,25 @@ def record_call(doc, call):
                 ev['res'] = {'ok': True, 'v': int(doc.measures_count())}
             except Exception as ex:  # noqa
                 ev['res'] = {'ok': False, 'v': 0}
+        elif op == 'small':
+            def val(f, bad=-1):
+                try:
+                    return f()
+                except Exception:  # noqa
+                    return bad
+            other = call['_other']                                 # another document (harness-built) to match against
+            ev['res'] = {
+                'spine_count': int(val(doc.get_spine_count)),
+                'leaves': [cps(n.token.encoding) for n in val(doc.get_leaves, [])],
+                'first_measure': int(val(doc.get_first_measure)),
+                'match_self': bool(val(lambda: kp.Document.match(doc, doc), False)),
+                'match_core_self': bool(val(lambda: kp.Document.match(doc, doc, check_core_spines_only=True), False)),
+                'match_other': bool(val(lambda: kp.Document.match(doc, other), False)),
+                'match_core_other': bool(val(lambda: kp.Document.match(doc, other, check_core_spines_only=True), False)),
+                'other_headers': [cps(t.encoding) for t in other.get_header_nodes()],
+                'levels': [int(x) for x in val(doc.tree.root.count_nodes_by_stage, [])],
+                'headers': [cps(t.encoding) for t in val(doc.get_header_nodes, [])],
+            }
         elif op == 'opaque':
             what = call['_what']
             if what == 'graph':
